@@ -39,10 +39,10 @@ def T(**kw):
     return {k: {"target": v[0], "graceful": v[1]} for k, v in kw.items()}
 
 
-def I(actors, parent, roots, kids, mr, nmsg, sendto, toks, tgt, grace, faults, crash="AllKinds", batch=4, ifaults=0, dup=0, succ=None):
+def I(actors, parent, roots, kids, mr, nmsg, sendto, toks, tgt, grace, faults, crash="AllKinds", batch=4, ifaults=0, dup=0, succ=None, respawn=False):
     return ("Actors <- %s Parent <- %s Roots <- %s KidsOf <- %s MaxRestarts <- %s NMsg = %d SendTo <- %s Toks <- %s TokTarget <- %s "
-            "TokGraceful <- %s Faults = %d IFaults = %d CrashKinds <- %s Batch = %d MaxDup = %d Succ <- %s" % (
-                actors, parent, roots, kids, mr, nmsg, sendto, toks, tgt, grace, faults, ifaults, crash, batch, dup,
+            "TokGraceful <- %s Faults = %d IFaults = %d CrashKinds <- %s Batch = %d MaxDup = %d RespawnKids = %s Succ <- %s" % (
+                actors, parent, roots, kids, mr, nmsg, sendto, toks, tgt, grace, faults, ifaults, crash, batch, dup, "TRUE" if respawn else "FALSE",
                 succ or {"One": "NoSucc1", "Pair": "NoSucc2", "Chain": "NoSucc3c", "Fan": "NoSuccF"}[actors]))
 
 
@@ -81,6 +81,9 @@ INST = {
     "chain_a": (I("Chain", "ParentChain", "RootP", "KidsChain", "MR0_3", 1, "SendG", "T1", "T1onP", "G_t1", 0), chain(0), T(t1=("P", True))),
     "chain_b": (I("Chain", "ParentChain", "RootP", "KidsChain", "MR0_3", 0, "SendG", "T2", "TgtCP", "G_all", 0), chain(0),
                 T(t1=("C", True), t2=("P", True))),
+    # the parent's Started handler calls SpawnChild again in every incarnation: duplicate while the child lives, fresh child after it has gone
+    "pair_r": (I("Pair", "ParentPair", "RootP", "KidsPair", "MR1_2", 2, "Pair", "T1", "T1onP", "G_t1", 2, crash="UserOnly", respawn=True),
+               {"P": {"parent": "", "kids": ["C"], "maxRestarts": 1, "respawnKids": True}, "C": {"parent": "P", "kids": [], "maxRestarts": 1}}, T(t1=("P", True))),
     "fan_a": (I("Fan", "ParentFan", "RootP", "KidsFan", "MR0_F", 1, "SendC", "T1", "T1onP", "G_t1", 0), fan(0), T(t1=("P", True))),
 }
 
@@ -122,7 +125,7 @@ INVS_DUP = "C02_NoOverlap C04_Lifecycle C05_AtMostOnce C05_InOrder C06_Alive C10
 
 
 def model_cfg(inst, eager):
-    invs = INVS_DUP if ("MaxDup = 0" not in INST[inst][0] or "SuccAB" in INST[inst][0]) else INVS
+    invs = INVS_DUP if ("MaxDup = 0" not in INST[inst][0] or "SuccAB" in INST[inst][0] or "RespawnKids = TRUE" in INST[inst][0]) else INVS
     return ("CONSTANTS " + INST[inst][0] + " Eager = %s " % ("TRUE" if eager else "FALSE") + FIX +
             "\nSPECIFICATION Spec\nINVARIANTS " + invs + "\n")
 
@@ -206,7 +209,7 @@ def run_scenarios(sc, binp, scen_path, out_path, extra=()):
         k = open(prog).read().strip()
         if not k:
             raise vlib.Broken("actorscen failed: rc=%d %s" % (p.returncode, p.stderr[-2000:]))
-        crashed.append((int(k), p.stderr[-1500:]))
+        crashed.append((int(k), p.stderr if len(p.stderr) < 4000 else p.stderr[:2500] + "\n[...]\n" + p.stderr[-1200:]))
         start = int(k) + 1
         if len(crashed) > 20:
             break
